@@ -26,6 +26,9 @@ class Behaviour:
                   "setSpeed": 0.5, "setRange": 0.5, "gotoGeo": 0},
             "pBadDst": 0.12, "pGuarded": 0.15, "pFinish": 0.5, "names": NAMES,
             "speeds": [10.0, 4.0, 0.5, 64.0], "ranges": [60.0, 5.0, 0.0, 25.0, -1.0],
+            # "base": ticks added to timers set from initialize: moves the whole timeline far from 0
+            # (all times stay dyadic and far below 2^53/1024, so float arithmetic remains exact)
+            "base": 0,
         }
         p.update(profile or {})
         self.p = p
@@ -34,7 +37,7 @@ class Behaviour:
 
     def react(self, n, kind, key, t):
         p = self.p
-        if not isinstance(t, int) or t > p["horizon"] or self.budget <= 0:
+        if not isinstance(t, int) or t > p["base"] + p["horizon"] or self.budget <= 0:
             return []
         r = random.Random(stable_hash(self.seed, n, kind, key, t))
         if kind == "telemetry" and r.random() > p["pTelemetry"]:
@@ -83,6 +86,8 @@ class Behaviour:
                         name = names[r.randint(rank + 1, len(names) - 1)]
                 elif kind == "packet":
                     off = 1
+            if kind == "initialize" and off >= 0:
+                off += p["base"]
             return ["setTimer", name, t + off]
         if op == "cancelTimer":
             return ["cancelTimer", r.choice(names)]
